@@ -79,7 +79,7 @@ C09_CLAUSES = {"bounded_lookahead", "bounded_pulls_after_drop", "threads_exit", 
                "terminates_on_panic", "buffered_lookahead", "buffered_pulls_after_drop",
                "buffered_producer_exits", "buffered_in_order", "buffered_complete"}
 TIMING_CLAUSES = {"progress", "iteration_ends", "threads_exit", "buffered_producer_exits"}
-PIPE_INVS = "TypeOK InOrder AtMostOnce Complete LookAhead AfterDrop TurnInv"
+PIPE_INVS = "TypeOK InOrder AtMostOnce Complete LookAhead AfterDrop TurnInv IndInvHere"
 
 
 def pipe_cfg(W, N, lens, fail="{}", hook="TRUE", drop="TRUE", cap=None, invs=PIPE_INVS, props="", spec="SPECIFICATION Spec", late="FALSE",
@@ -171,6 +171,18 @@ def pipe_judge(ctx, cases, label, clauses, mech=True):
                             "schedule": r.get("sched", [])[:60],
                             "events": ["%s(%s,%s)" % (e["e"], e["w"], e["x"]) for e in r["ev"][:60]]})
     return obs
+
+
+def pipe_induction(ctx):
+    """Apalache: the inductive invariant of the pipe protocol (spec/apalache/PipeInd.tla) for an arbitrary upstream length and
+    2, 3, 4 workers: Init => IndInv, IndInv /\\ Next => IndInv', IndInv => Safety; negative controls: a false bound is refuted
+    from IndInit (the invariant is satisfiable), a protocol without the turn check breaks the invariant."""
+    for ci in ("ConstInit2", "ConstInit3", "ConstInit4"):
+        vlib.apalache(ctx, "PipeInd", ci, "Init", "IndInv", 0)
+        vlib.apalache(ctx, "PipeInd", ci, "IndInit", "IndInv", 1)
+        vlib.apalache(ctx, "PipeInd", ci, "IndInit", "Safety", 0)
+    vlib.apalache(ctx, "PipeIndNeg", "ConstInit2", "IndInit", "FalseInv", 0, expect_error=True)
+    vlib.apalache(ctx, "PipeIndNeg", "ConstInit2", "IndInit", "IndInv", 1, nxt="BadNext", expect_error=True)
 
 
 def pipe_confirm_free(ctx, case, clauses):
@@ -275,7 +287,11 @@ def c05(ctx):
                 "schedules (controlled, incl. steps into blocking sends) and free-running recorded runs. "
                 "non-trivial = a run in which two workers are simultaneously between processing and turn hand-over")
     ctx.assumptions = ["SeqCst atomics and std::sync::mpsc are linearizable; the hooks serialise threads only at the schedule points",
-                       "time-outs (1.5 s per step) only decide 'no progress'; such a verdict is re-run once before it is reported"]
+                       "time-outs (5 s per step) only decide 'no progress'; such a verdict is re-run once and must be confirmed by free-running runs",
+                       "thorough tier: the safety clauses are also derived from an inductive invariant checked by Apalache for every "
+                       "upstream length and 2-4 workers (spec/apalache/PipeInd.tla, counters instead of sequences)"]
+    if not q:
+        pipe_induction(ctx)
     cases = []
     for (W, N) in ([(1, 2), (2, 2), (2, 3)] if q else [(1, 3), (2, 3), (3, 3), (2, 4)]):
         cases += pipe_paths(ctx, W, N, False, "nodrop-W%dN%d" % (W, N))
@@ -436,6 +452,8 @@ def c09(ctx):
                 "active / look-ahead bound reached / child run")
     ctx.assumptions = ["exit of background threads is observed through the drop of the upstream iterator",
                        "a hang is declared after 1.5 s (controlled step), 3 s (producer exit) or 10 s (child process) for work of microseconds; timing-only verdicts are re-run once"]
+    if not q:
+        pipe_induction(ctx)
     # design: panic with / without the hook
     for (W, N) in ([(2, 3)] if q else [(2, 4), (3, 4)]):
         lens = "{%d}" % N
